@@ -2948,6 +2948,212 @@ Proof.
     + intros z Hz. destruct (D z Hz) as [Hl|(l' & r' & E & Hok)]; [left; exact Hl|right].
       exists l', r'. split; [|exact Hok]. rewrite nget_nset_other; [exact E|]. intros ->. congruence.
 Qed.
+Definition InvCV (s : tstate) : Prop := InvSV s /\ totals_inv s.
+Lemma add_node_invV nd s : InvCV s -> good_node nd ->
+  InvCV (add_node nd s) /\ children (add_node nd s) = children s /\ sliced (add_node nd s) = sliced s /\
+  nget nd (info (add_node nd s)) <> None /\
+  (forall p, nget p (info s) <> None -> nget p (info (add_node nd s)) = nget p (info s)).
+Proof.
+  intros [HS HT] HG. unfold add_node, nmem. destruct (nget nd (info s)) as [i|] eqn:E.
+  { split; [split; assumption|]. split; [reflexivity|]. split; [reflexivity|]. split; [rewrite E; discriminate|intros; reflexivity]. }
+  set (s' := set_info (info s ++ [(nd, noinfo)]) s).
+  assert (Hget : forall p, nget p (info s) <> None -> nget p (info s') = nget p (info s)).
+  { intros p Hp. unfold s'. cbn. destruct (nget p (info s)) as [ip|] eqn:Ep; [|congruence]. apply nget_app_l, Ep. }
+  split; [|split; [reflexivity|split; [reflexivity|split; [|exact Hget]]]].
+  2:{ unfold s'. cbn. rewrite (nget_app_r nd _ _ E). cbn. rewrite node_eqb_refl. discriminate. }
+  destruct HS as (H1&H2&H3&H5). split.
+  - unfold InvSV, s'. cbn. split; [exact H1|]. split; [|split; [|exact H5]].
+    + unfold nkeys. rewrite map_app. cbn. apply nget_none_notin in E. fold (nkeys (info s)).
+      clear -H2 E. induction (nkeys (info s)) as [|a l IH]; cbn; [constructor; [tauto|constructor]|].
+      inversion H2 as [|? ? Ha ND']; subst. constructor.
+      * rewrite in_app_iff. cbn. intros [H|[H|[]]]; [contradiction|subst; apply E; left; reflexivity].
+      * apply IH; [exact ND'|]. intros H. apply E. right. exact H.
+    + intros nd' i' Hg. destruct (nget nd' (info s)) as [i0|] eqn:E0.
+      * rewrite (nget_app_l nd' _ _ i0 E0) in Hg. injection Hg as <-. apply H3, E0.
+      * rewrite (nget_app_r nd' _ _ E0) in Hg. cbn in Hg. destruct (node_eqb nd nd') eqn:En; [|discriminate].
+        apply node_eqb_eq in En. subst nd'. injection Hg as <-. split; [exact HG|intros _; apply node_inv_noinfo].
+  - (* totals: every key that mattered is still read the same *)
+    apply totals_split in HT. destruct HT as (T1 & T2 & T3). apply totals_split.
+    assert (Rf : forall p, rd i_flops s p <> None -> rd i_flops s' p = rd i_flops s p) by (intros; apply rd_app_l; assumption).
+    assert (Rs : forall p, rd i_size s p <> None -> rd i_size s' p = rd i_size s p) by (intros; apply rd_app_l; assumption).
+    split; [|split].
+    + intros Ht. destruct (T1 Ht) as [Ta Tb]. split; [|intros p Hp; rewrite Rf; apply Tb, Hp].
+      change (flops_ s') with (flops_ s). rewrite Ta. f_equal. apply map_ext_in. intros p Hp. unfold cflops. rewrite Rf; [reflexivity|apply Tb, Hp].
+    + intros Ht. destruct (T2 Ht) as [Ta Tb]. split; [|intros p Hp; rewrite Rs; apply Tb, Hp].
+      change (write_ s') with (write_ s). rewrite Ta. f_equal. apply map_ext_in. intros p Hp. unfold csize. rewrite Rs; [reflexivity|apply Tb, Hp].
+    + intros Ht. destruct (T3 Ht) as (Ta & Tb & Tc). split; [exact Ta|]. split; [|intros p Hp; rewrite Rs; apply Tc, Hp].
+      intros z. change (sizes_ s') with (sizes_ s). rewrite Tb. f_equal. apply map_ext_in. intros p Hp. unfold csize. rewrite Rs; [reflexivity|apply Tc, Hp].
+Qed.
+Theorem remove_node_internal_invV nd s : InvCV s -> In nd (nkeys (children s)) -> nget nd (info s) <> None ->
+  InvCV (remove_node n nd s) /\
+  children (remove_node n nd s) = ndel nd (children s) /\ sliced (remove_node n nd s) = sliced s /\
+  (forall q, q <> nd -> nget q (info (remove_node n nd s)) = nget q (info s)) /\
+  (nget nd (info (remove_node n nd s)) = None \/ nget nd (info (remove_node n nd s)) = Some noinfo) /\
+  trk_flops (remove_node n nd s) = trk_flops s /\ trk_write (remove_node n nd s) = trk_write s /\
+  trk_size (remove_node n nd s) = trk_size s.
+Proof.
+  intros [HS HT] Hin Hk.
+  assert (E1 : length nd <> 1).
+  { intros E. assert (Hin' := Hin). apply nget_in_keys in Hin'. destruct (nget nd (children s)) as [[l r]|] eqn:Ex; [|congruence].
+    apply (leaf_not_parent _ nd l r (proj1 HS) Ex E). }
+  assert (ND : NoDup (nkeys (children s))) by apply HS.
+  apply totals_split in HT. destruct HT as (T1 & T2 & T3).
+  unfold remove_node. destruct (Nat.eqb_spec (length nd) 1) as [|_]; [contradiction|].
+  set (s1 := if trk_size s then _ else s).
+  destruct (stage_size nd s ND Hin T3) as (A1&A2&A3&A4&A5&A6&A7&A8&A9&A10). fold s1 in A1, A2, A3, A4, A5, A6, A7, A8, A9, A10.
+  assert (R1 : forall A (fld : ninfo -> option A) p, rd fld s1 p = rd fld s p) by (intros; apply rd_same, A1).
+  assert (T1' : tot_flops (nkeys (children s1)) s1).
+  { rewrite A2. apply (tot_flops_frame _ s s1); auto. }
+  set (s2 := if trk_flops s1 then _ else s1).
+  assert (ND1 : NoDup (nkeys (children s1))) by (rewrite A2; exact ND).
+  assert (Hin1 : In nd (nkeys (children s1))) by (rewrite A2; exact Hin).
+  destruct (stage_flops nd s1 ND1 Hin1 T1') as (B1&B2&B3&B4&B5&B6&B7&B8&B9&B10&B11). fold s2 in B1, B2, B3, B4, B5, B6, B7, B8, B9, B10, B11.
+  assert (R2 : forall A (fld : ninfo -> option A) p, rd fld s2 p = rd fld s p) by (intros; rewrite <- R1; apply rd_same, B1).
+  assert (T2' : tot_write (nkeys (children s2)) s2).
+  { rewrite B2, A2. apply (tot_write_frame _ s s2); auto; congruence. }
+  set (s3 := if trk_write s2 then _ else s2).
+  assert (ND2 : NoDup (nkeys (children s2))) by (rewrite B2; exact ND1).
+  assert (Hin2 : In nd (nkeys (children s2))) by (rewrite B2; exact Hin1).
+  destruct (stage_write nd s2 ND2 Hin2 T2') as (C1&C2&C3&C4&C5&C6&C7&C8&C9&C10&C11). fold s3 in C1, C2, C3, C4, C5, C6, C7, C8, C9, C10, C11.
+  assert (Ech3 : children s3 = children s) by congruence.
+  assert (Einf3 : info s3 = info s) by congruence.
+  (* the three totals, over the keys that remain, in s3 *)
+  assert (TT : tot_flops (nkeys (ndel nd (children s))) s3 /\ tot_write (nkeys (ndel nd (children s))) s3
+               /\ tot_size (nkeys (ndel nd (children s))) s3).
+  { split; [|split].
+    - rewrite A2 in B11. apply (tot_flops_frame _ s2 s3); [exact C5|exact C8| |exact B11]. intros; apply rd_same, C1.
+    - rewrite B2, A2 in C11. exact C11.
+    - apply (tot_size_frame _ s1 s3); [congruence|congruence|congruence| |exact A10]. intros. unfold rd. rewrite Einf3, A1. reflexivity. }
+  unfold nmem. rewrite Ech3.
+  assert (Hch : nget nd (children s) <> None) by (apply nget_in_keys, Hin).
+  destruct (nget nd (children s)) as [lr|] eqn:Ech; [|congruence].
+  set (s4 := set_children (ndel nd (children s)) s3).
+  assert (Hnk : ~ In nd (nkeys (ndel nd (children s)))).
+  { intros H. apply (in_nkeys_ndel nd nd _ ND) in H. tauto. }
+  destruct (nget nd (info s)) as [i0|] eqn:Ei0; [|congruence].
+  destruct (Nat.eqb_spec (length nd) N) as [EN|EN].
+  - (* the root: its info is cleared *)
+    unfold clear_info, upd_info. change (info s4) with (info s3). rewrite Einf3, Ei0.
+    set (sF := set_info _ s4).
+    split; [split|].
+    + apply (InvSV_children_del nd s (Some noinfo) HS (fun _ => eq_refl) sF);
+        [reflexivity|unfold sF; cbn; congruence|unfold sF; cbn; congruence|unfold sF; cbn; congruence|congruence|right; reflexivity].
+    + apply totals_split. change (children sF) with (ndel nd (children s)).
+      apply (totals_other_node s3 sF _ nd); auto.
+      intros p Hp. unfold sF. cbn. rewrite Einf3. apply nget_nset_other, Hp.
+    + split; [reflexivity|]. split; [unfold sF; cbn; congruence|]. split.
+      { intros q Hq. unfold sF. cbn. try rewrite Einf3. apply nget_nset_other, Hq. }
+      split; [right; unfold sF; cbn; try rewrite Einf3; apply nget_nset_same|].
+      unfold sF. cbn. repeat split; congruence.
+  - change (info s4) with (info s3). rewrite Einf3, Ei0.
+    set (sF := set_info _ s4).
+    split; [split|].
+    + apply (InvSV_children_del nd s None HS (fun E => match EN E with end) sF);
+        [reflexivity|unfold sF; cbn; congruence|unfold sF; cbn; congruence|unfold sF; cbn; congruence|congruence|left; reflexivity].
+    + apply totals_split. change (children sF) with (ndel nd (children s)).
+      apply (totals_other_node s3 sF _ nd); auto.
+      intros p Hp. unfold sF. cbn. rewrite Einf3. apply nget_ndel_other, Hp.
+    + split; [reflexivity|]. split; [unfold sF; cbn; congruence|]. split.
+      { intros q Hq. unfold sF. cbn. try rewrite Einf3. apply nget_ndel_other, Hq. }
+      split; [left; unfold sF; cbn; try rewrite Einf3; apply nget_ndel_same, HS|].
+      unfold sF. cbn. repeat split; congruence.
+Qed.
+Theorem contract_pair_invV x y s : InvCV s -> Vclosed (children s) ->
+  good_node x -> good_node y -> inrange n (x ++ y) -> nget (nunion x y) (children s) = None ->
+  V x -> V y -> V (nunion x y) ->
+  InvCV (contract_pair n x y None None None s) /\
+  children (contract_pair n x y None None None s) = nset (nunion x y) (order_pair x y) (children s) /\
+  sliced (contract_pair n x y None None None s) = sliced s /\
+  trk_flops (contract_pair n x y None None None s) = trk_flops s /\
+  trk_write (contract_pair n x y None None None s) = trk_write s /\
+  trk_size (contract_pair n x y None None None s) = trk_size s /\
+  nkeys (info (contract_pair n x y None None None s)) = nkeys (info (add_node (nunion x y) (add_node y (add_node x s)))).
+Proof.
+  intros HI HC Gx Gy HR Hnone Vx Vy Vp.
+  set (p := nunion x y) in *.
+  assert (HPxy : Permutation p (x ++ y)).
+  { apply nunion_perm; [apply (NoDup_app_elim _ _ (proj1 HR))|].
+    intros k Hky Hkx. destruct HR as [ND _].
+    clear -ND Hky Hkx. induction x as [|a x IH]; [contradiction|]. cbn in ND. inversion ND as [|? ? Hna ND']; subst.
+    destruct Hkx as [->|Hkx]; [apply Hna, in_app_iff; right; exact Hky|apply IH; assumption]. }
+  assert (Gp : good_node p).
+  { split.
+    - split; [apply (Permutation_NoDup (Permutation_sym HPxy)), HR|].
+      intros k Hk. apply HR. apply (Permutation_in _ HPxy), Hk.
+    - intros E. rewrite E in HPxy. apply Permutation_nil in HPxy. destruct Gx as [_ Hx]. destruct x; [congruence|discriminate]. }
+  (* the three _add_node calls *)
+  destruct (add_node_invV x s HI Gx) as (I1 & C1 & S1 & _ & _).
+  destruct (add_node_invV y _ I1 Gy) as (I2 & C2 & S2 & _ & _).
+  destruct (add_node_invV p _ I2 Gp) as (I3 & C3 & S3 & K3 & _).
+  unfold contract_pair. fold p.
+  set (s1 := add_node p (add_node y (add_node x s))) in *.
+  assert (Ech1 : children s1 = children s) by congruence.
+  assert (Esl1 : sliced s1 = sliced s) by congruence.
+  destruct I3 as [HS1 HT1].
+  set (K := nkeys (children s)) in *.
+  assert (HT1' : tot_flops K s1 /\ tot_write K s1 /\ tot_size K s1).
+  { unfold K. rewrite <- Ech1. apply totals_split. exact HT1. }
+  (* children[parent] = (l, r) *)
+  set (lr := order_pair x y).
+  assert (Hlr : good_node (fst lr) /\ good_node (snd lr) /\ inrange n (fst lr ++ snd lr) /\ Permutation p (fst lr ++ snd lr)).
+  { unfold lr, order_pair. destruct (if Nat.eqb (length x) (length y) then _ else _); cbn [fst snd].
+    - auto.
+    - split; [exact Gy|]. split; [exact Gx|]. split.
+      + destruct HR as [ND Hb]. split; [apply (Permutation_NoDup (Permutation_app_comm x y)), ND|].
+        intros k Hk. apply Hb. apply (Permutation_in _ (Permutation_app_comm y x)), Hk.
+      + rewrite HPxy. apply Permutation_app_comm. }
+  destruct Hlr as (Gl & Gr & HRlr & HPlr).
+  set (s2 := set_children (nset p lr (children s1)) s1).
+  assert (HS2 : InvSV s2).
+  { unfold s2. rewrite (surjective_pairing lr). apply InvSV_children_add; try assumption. rewrite Ech1. exact Hnone. }
+  assert (Hpk : ~ In p K) by (apply nget_none_notin, Hnone).
+  assert (Hch2 : nget p (children s2) = Some lr) by (unfold s2; cbn; apply nget_nset_same).
+  assert (HK2 : nkeys (children s2) = K ++ [p]).
+  { unfold s2. cbn [set_children children]. rewrite Ech1. apply nkeys_nset_notin, Hnone. }
+  assert (HT2 : tot_flops K s2 /\ tot_write K s2 /\ tot_size K s2) by exact HT1'.
+  assert (Hk2 : nget p (info s2) <> None) by exact K3.
+  assert (HC2 : Vclosed (children s2)).
+  { split; [|apply HC]. intros q l r Hq Vq. unfold s2 in Hq. cbn [set_children children] in Hq. rewrite Ech1 in Hq.
+    destruct (node_eq_dec q p) as [->|Hn].
+    - rewrite nget_nset_same in Hq. injection Hq as E. unfold lr, order_pair in E.
+      destruct (if Nat.eqb (length x) (length y) then _ else _); injection E as <- <-; auto.
+    - rewrite nget_nset_other in Hq by exact Hn. apply (proj1 HC q l r Hq Vq). }
+  destruct HT2 as (T5f & T5w & T5s).
+  (* _update_tracked *)
+  unfold update_tracked.
+  assert (Hch5 : nget p (children s2) <> None) by (rewrite Hch2; discriminate).
+  destruct (track_flopsV K p s2 HS2 HC2 Vp Gp Hch5 Hk2 T5f) as (HS6 & E6 & W6 & Z6 & M6 & T6f).
+  set (s6 := if trk_flops s2 then _ else s2) in *.
+  assert (Hk6 : nget p (info s6) <> None).
+  { apply nget_in_keys. destruct E6 as (_&_&_&_&_&_&Ek&_). unfold nkeys in *. rewrite Ek. apply nget_in_keys, Hk2. }
+  assert (T6w : tot_write K s6) by (apply (tot_write_mono K s2 s6); [apply E6|exact W6|apply E6|exact T5w]).
+  assert (T6s : tot_size K s6) by (apply (tot_size_mono K s2 s6); [apply E6|exact Z6|exact M6|apply E6|exact T5s]).
+  assert (HC6 : Vclosed (children s6)) by (destruct E6 as (Ec6&_); rewrite Ec6; exact HC2).
+  destruct (track_writeV K p s6 HS6 HC6 Vp Gp Hk6 T6w) as (HS7 & E7 & F7 & Z7 & M7 & T7w).
+  set (s7 := if trk_write s6 then _ else s6) in *.
+  assert (Hk7 : nget p (info s7) <> None).
+  { apply nget_in_keys. destruct E7 as (_&_&_&_&_&_&Ek&_). unfold nkeys in *. rewrite Ek. apply nget_in_keys, Hk6. }
+  assert (T7f : tot_flops (K ++ [p]) s7) by (apply (tot_flops_mono _ s6 s7); [apply E7|exact F7|apply E7|exact T6f]).
+  assert (T7s : tot_size K s7) by (apply (tot_size_mono K s6 s7); [apply E7|exact Z7|exact M7|apply E7|exact T6s]).
+  assert (HC7 : Vclosed (children s7)) by (destruct E7 as (Ec7&_); rewrite Ec7; exact HC6).
+  destruct (track_sizeV K p s7 HS7 HC7 Vp Gp Hk7 T7s) as (HS8 & E8 & F8 & W8 & T8s).
+  set (s8 := if trk_size s7 then _ else s7) in *.
+  assert (Ech8 : children s8 = children s2).
+  { destruct E8 as (A&_), E7 as (B&_), E6 as (C&_). congruence. }
+  split; [split; [exact HS8|]|].
+  - apply totals_split. rewrite Ech8, HK2. split; [|split; [|exact T8s]].
+    + apply (tot_flops_mono _ s7 s8); [apply E8|exact F8|apply E8|exact T7f].
+    + apply (tot_write_mono _ s7 s8); [apply E8|exact W8|apply E8|exact T7w].
+  - destruct E8 as (_&X2&_&X4&X5&X6&X7&_), E7 as (_&Y2&_&Y4&Y5&Y6&Y7&_), E6 as (_&U2&_&U4&U5&U6&U7&_).
+    split; [rewrite Ech8; unfold s2; cbn [set_children children]; rewrite Ech1; reflexivity|].
+    split; [rewrite X2, Y2, U2; exact Esl1|].
+    assert (Ft : trk_flops s1 = trk_flops s /\ trk_write s1 = trk_write s /\ trk_size s1 = trk_size s).
+    { unfold s1, add_node. repeat (match goal with |- context [if ?c then _ else _] => destruct c end); cbn; auto. }
+    destruct Ft as (Ft1 & Ft2 & Ft3).
+    split; [rewrite X4, Y4, U4; exact Ft1|]. split; [rewrite X5, Y5, U5; exact Ft2|]. split; [rewrite X6, Y6, U6; exact Ft3|].
+    unfold nkeys in *. rewrite X7, Y7, U7. reflexivity.
+Qed.
+
 End VV.
 
 End Inv.
